@@ -258,6 +258,53 @@ class Converter:
         self.ival += self.ratio
         return out
 
+    # ---- the other public operations (coq/theories/Dsp/SincConv.v): the setters change the ratio and nothing else ----
+    def is_exhausted(self):
+        return self.pulls >= len(self.src) and self.ival >= 1.0
+
+    def source_pull(self):
+        fr = self.src[self.pulls] if self.pulls < len(self.src) else [self.itp.F["equil"]] * self.itp.ch
+        self.pulls += 1
+        return fr
+
+
+def ctor_scale(kind, a, b):
+    """the scale a constructor hands to scale_playback_hz: 0 scale_playback_hz(a), 1 from_hz_to_hz(a, b), 2 scale_sample_hz(a)"""
+    a, b = f64_of_bits(a), f64_of_bits(b)
+    return a if kind == 0 else (fdiv(a, b) if kind == 1 else fdiv(1.0, a))
+
+
+def apply_conv_op(c, op, case, sin_o, cos_o):
+    """one non-`next` Converter operation on the transcription; returns the observation (Z-level)"""
+    enc = FMT[case["fmt"]]["enc"]
+    k = op[0]
+    if k == "ratio":
+        c.ratio = f64_of_bits(op[1])
+        return [7]
+    if k == "hz":
+        c.ratio = fdiv(f64_of_bits(op[1]), f64_of_bits(op[2]))
+        return [7]
+    if k == "srate":
+        c.ratio = fdiv(1.0, f64_of_bits(op[1]))
+        return [7]
+    if k == "src":
+        return [2, c.pulls]
+    if k == "srcpull":
+        fr = c.source_pull()
+        return [3, c.pulls] + [enc(v) for v in fr]
+    if k == "exh":
+        return [4, 1 if c.is_exhausted() else 0]
+    if k == "acc":
+        return [5, bits_of_f64(c.ival)]
+    if k == "rebuild":
+        scale = ctor_scale(op[1], op[2], op[3])
+        if not scale > 0.0:
+            raise Panic(9)
+        c.itp = Sinc(case["fmt"], case["ch"], case["depth"], sin_o, cos_o)
+        c.ival, c.ratio = 0.0, scale
+        return [7]
+    raise ValueError(k)
+
 
 def queries(case):
     """the arguments at which the model calls sin and cos on this case (every tap, also past an i16 overflow)"""
@@ -300,9 +347,8 @@ def run_case(case, sin_o, cos_o):
                 if op[0] == "next":
                     o = c.next()
                     out.append([1, c.pulls] + [enc(v) for v in o])
-                elif op[0] == "ratio":
-                    c.ratio = f64_of_bits(op[1])
-                    out.append([7])
+                else:
+                    out.append(apply_conv_op(c, op, case, sin_o, cos_o))
             except Panic as p:
                 out.append([8, p.code])
                 break
